@@ -16,6 +16,8 @@ from concurrent.futures import ProcessPoolExecutor
 
 from . import tlaval
 from .common import Verdict, ensure_repo_on_path
+from . import progapi
+from .common import replay_dump
 from .progtrace import record, classify
 from .tlc import run_tlc, cleanup, MachineryError, require_coverage, scratch_dir
 
@@ -212,13 +214,36 @@ def selftest() -> int:
     v = Verdict("C18", "quick", 0)
     rej, _ = validate_traces(v, [good, bad, bad2])
     ok2 = 0 not in rej and 1 in rej and 2 in rej
-    print("selftest C18:", "ok" if ok1 and ok2 else f"FAILED model={ok1} binding={ok2} {rej}")
-    return 0 if ok1 and ok2 else 2
+    # the API replay: a model counterexample (handles reused) and a broken dispatcher must both be seen
+    res = run_tlc("ProgressApi", progapi.cfg_registry(4, 2), dump=True)
+    hs = [st["hist"] for st in tlaval.iter_dump_states(res.dump_path) if len(st["hist"]) == 4]
+    cleanup(res)
+    two = next(h for h in hs if [r["op"] for r in h[:3]] == ["register", "register", "enter"] and h[2]["err"] == "")
+    ok3 = not progapi.judge_api_history(two, None)
+    from pyimpspec import progress as P
+    orig = P._update
+    try:
+        P._update = lambda *a, **k: [cb(*a, **k) for cb in list(P._CALLBACKS.values())[:1]]
+        out = progapi.judge_api_history(two, None)
+    finally:
+        P._update = orig
+    ok4 = bool(out) and out[0][0] == "violation" and "registered-callback-not-notified" in out[0][1]
+    ok = ok1 and ok2 and ok3 and ok4
+    print("selftest C18:", "ok" if ok else f"FAILED model={ok1} binding={ok2} api-good={ok3} api-bad={ok4} {rej}")
+    return 0 if ok else 2
 
 
 def replay(case) -> int:
     ensure_repo_on_path()
     c = case["case"]
+    if c.get("spec") == "ProgressApi":
+        res = progapi.judge_api_history(tlaval.from_jsonable(c["hist"]), None)
+        if not res:
+            print("replay C18: the behaviour of the progress API conforms to the model on this tree")
+            return 0
+        kind, sig, step, detail, _ = res[0]
+        print(f"replay C18: {kind} at step {step} [{sig}]: {detail}")
+        return 1 if kind == "violation" else 0
     r = run_config((c["config"], c["points"], c.get("num_procs", 1)))
     print("replay C18:", brief(c["config"]), "->", r["events"][-1])
     return 0 if r["events"][-1]["outcome"] in ("returned", "refused-upfront", "library-error", "refused-late") else 1
@@ -236,6 +261,24 @@ def run(tier: str, seed: int) -> int:
         configs = [st["cfg"] for st in tlaval.iter_dump_states(res.dump_path) if st["phase"] == "config" and st["calls"] == 0]
     finally:
         cleanup(res)
+    # the public API of pyimpspec.progress (register / unregister + Progress calls), every behaviour replayed (spec -> code)
+    plans = [("machine", progapi.cfg_machine(4), 4), ("registry", progapi.cfg_registry(5, 3), 5)] if tier == "quick" else \
+            [("machine", progapi.cfg_machine(5), 5), ("registry", progapi.cfg_registry(6, 3), 6)]
+    api_replayed = 0
+    for name, cfg_txt, mh in plans:
+        res = run_tlc("ProgressApi", cfg_txt, dump=True, coverage=True, timeout=7200, heap="24g")
+        try:
+            v.add_tlc(f"progress API ({name} plan, MaxHist={mh})", res)
+            if res.violated:
+                v.model_violation("ProgressApi", res, "the model of the progress API violates its own invariant")
+            else:
+                require_coverage(res, progapi.ACTIONS)
+                before = v.replayed
+                replay_dump(v, "ProgressApi", res.dump_path, mh, progapi.judge_api_history, None)
+                api_replayed += v.replayed - before
+        finally:
+            cleanup(res)
+    v.extra["progress_api_behaviours_replayed"] = api_replayed
     configs = [dict(c) for c in configs]
     configs.sort(key=lambda c: json.dumps(c, sort_keys=True))
     rng = random.Random(seed)
@@ -267,11 +310,12 @@ def run(tier: str, seed: int) -> int:
         o = r["events"][-1]["outcome"]
         v.extra["outcomes"][o] = v.extra["outcomes"].get(o, 0) + 1
     judge(v, runs)
-    v.nontrivial = len({json.dumps((r["cfg"], r["n"]), sort_keys=True) for r in runs})
-    v.evaluations = len(runs)
+    v.nontrivial = len({json.dumps((r["cfg"], r["n"]), sort_keys=True) for r in runs}) + api_replayed
+    v.evaluations = len(runs) + api_replayed
     v.extra["rule"] = ("configurations = states of specs/ProgressMC.tla with phase = 'config' (the option cross product per entry point), "
                        "sampled with VERIF_SEED in the quick tier, each run on spectra of the listed sizes; every run's Progress trace is "
-                       "validated against Progress.tla; distinct = distinct (configuration, size) pairs")
+                       "validated against Progress.tla; distinct = distinct (configuration, size) pairs + the behaviours of specs/ProgressApi.tla "
+                       "(register / unregister interleaved with the calls of one or two nested Progress objects) replayed through pyimpspec.progress")
     v.assumptions += ["size floors per entry point are frozen from the pinned tree; smaller spectra are recorded, not judged",
                       "KK / DRT step accounting is not transcribed (their traces are validated against the counter machine only)"]
     return v.finish()
